@@ -86,7 +86,11 @@ def corrupt(rng, lines, kind):
         return L, 'unknown-instruction', pos_tag(i)
     if kind == 'undefined-label':
         i = rng.choice(code_idx)
-        ins = rng.choice(['jmp nowhere_label', 'ldi BYTE0(_no_such)', '.2byte undefined_thing + 1', 'bra {missing_lbl}', '.byte .orphan_ref'])
+        ins = rng.choice(['jmp nowhere_label', 'ldi BYTE0(_no_such)', '.2byte undefined_thing + 1', 'bra {missing_lbl}', '.byte .orphan_ref',
+                          '.fill 0, no_such_fill_value', '.fill 0, undefined_v + 1', '.fill 3, nope_val', '.fill missing_count, 1',
+                          '.zero nope_cnt', '.zerountil not_defined_addr', '#mute\n.byte muted_undefined_ref\n#unmute',
+                          '.org undefined_origin', '.align undefined_page', 'K_bad = undefined_in_constant + 1',
+                          'mv2 a, unknown_imm', 'ldx [sp+undefined_off]', 'lix sp+undefined_idx'])
         L.insert(i, ins)
         return L, 'unresolvable-label', pos_tag(i)
     if kind == 'no-variant':
